@@ -56,6 +56,30 @@ def pool_map(fn, jobs, procs=None, chunksize=1):
         return pool.map(fn, jobs, chunksize=chunksize)
 
 
+def rerun_unknown(fn, jobs, results, factor=4, procs=4, limit=64):
+    """second chance for jobs that came back with an undecided obligation: solver budgets are wall-clock, so a busy machine can turn a 0.3 s query into
+    a timeout.  Those jobs are run again, few at a time, with `factor` times the budget; a result is replaced only by one with fewer undecided
+    obligations.  Returns (results, number of jobs re-run).  Verdicts (`unsat` / replayed counterexample) are never derived from a timeout."""
+    def unknowns(r):
+        return sum(1 for o in r.get("obligations", []) if o.get("status") == "unknown") if isinstance(r, dict) else 0
+    idx = [i for i, r in enumerate(results) if unknowns(r)]
+    if not idx or len(idx) > limit:
+        return results, 0
+    from . import prover as PR
+    old = PR.Z3_TIMEOUT_MS, PR.CVC5_TIMEOUT_MS
+    PR.Z3_TIMEOUT_MS, PR.CVC5_TIMEOUT_MS = old[0] * factor, old[1] * factor
+    try:
+        new = pool_map(fn, [jobs[i] for i in idx], procs=procs)
+    finally:
+        PR.Z3_TIMEOUT_MS, PR.CVC5_TIMEOUT_MS = old
+    results = list(results)
+    for i, r in zip(idx, new):
+        if isinstance(r, dict) and r.get("status") != "error" and unknowns(r) < unknowns(results[i]):
+            r["second_chance"] = True
+            results[i] = r
+    return results, len(idx)
+
+
 # --------------------------------------------------------------------------------------------- known findings
 def load_known():
     try:
